@@ -45,6 +45,26 @@ def table_of(c):
     return m.group(0) if m else None
 
 
+_AF = {}
+
+
+def always_fails(F, name, depth):
+    """Every path of `name` returns an Err: an Err aggregate, or the result of a helper that itself always fails
+    (`fn refuse<T>() -> Result<T, E> { Err(..) }`), on all paths and no Ok aggregate anywhere."""
+    if (name, depth) in _AF:
+        return _AF[(name, depth)]
+    f = F.fn(name)
+    res = False
+    if f is not None:
+        cfg = CFG(f)
+        errb = agg_blocks(f, r"result::Result$", "Err")
+        okb = agg_blocks(f, r"result::Result$", "Ok")
+        via = [i for i, c, args, dest, *_ in calls(f) if dest == [0] and depth > 0 and "def" in c and always_fails(F, callee_name(c), depth - 1)]
+        res = bool(errb or via) and not okb and cfg.must_pass(list(errb) + via)
+    _AF[(name, depth)] = res
+    return res
+
+
 def run(F, rep, tier, allfacts):
     cg = CallGraph(F, ["fuel_vm", "fuel_storage"])
     rep.rule("DOM-inputs-check", "contract id of every contract-table access ∈ {CHECKED, CURRENT, INPUT, CREATED}")
@@ -116,6 +136,34 @@ def run(F, rep, tier, allfacts):
             break
     rep.note("summarised helpers (id is a parameter): %s" % sorted(short(k) for k in param_access))
 
+    # thin wrappers of the verifier check (a private helper that only forwards to check_contract_in_inputs with its own
+    # parameters): a call to the wrapper is a check of the argument in the id position
+    wrappers = {}
+    for wn, wf in cg.fns.items():
+        if not wn.startswith("fuel_vm::") or wf["kind"] == "Closure" or SKIP_FN.search(wn) or re.search(CHECK, wn):
+            continue
+        wc = [(ci, cargs, cdest) for ci, cc, cargs, cdest, *_ in calls(wf) if callee_matches(cc, CHECK) and len(cargs) >= 4]
+        if len(wc) != 1 or len(list(calls(wf))) > 3:
+            continue
+        ci, cargs, cdest = wc[0]
+        pid, pset = param_of(wf, describe(wf, cargs[3], depth=8)), param_of(wf, describe(wf, cargs[2], depth=8))
+        if pid is not None and pset is not None and (cdest == [0] or any(callee_matches(c2, r"Try(<[^>]*>)?>?::branch$") for _, c2, *_ in calls(wf))):
+            wrappers[wn] = (pid - 1, pset - 1)
+    if wrappers:
+        rep.note("check wrappers: %s" % sorted(short(k) for k in wrappers))
+
+    def check_calls(f_):
+        """(block, id operand, set operand, target block) of every verifier check in f_, direct or through a wrapper"""
+        out = []
+        for ci, cc, cargs, cdest, ctgt, cline in calls(f_):
+            if callee_matches(cc, CHECK) and len(cargs) >= 4:
+                out.append((ci, cargs[3], cargs[2], ctgt))
+            elif "ptr" not in cc:
+                for t_ in cg.targets_of(cc):
+                    if t_ in wrappers and max(wrappers[t_]) < len(cargs):
+                        out.append((ci, cargs[wrappers[t_][0]], cargs[wrappers[t_][1]], ctgt))
+        return out
+
     classified = {}
     ordinals = {}
     for (n, f, i, line, what, op) in collect():
@@ -127,9 +175,9 @@ def run(F, rep, tier, allfacts):
         rep.saw(n)
         cfg = CFG(f)
         cls = None
-        for ci, cc, cargs, cdest, ctgt, cline in calls(f):
-            if callee_matches(cc, CHECK) and len(cargs) >= 4 and ci != i:
-                if describe(f, cargs[3], depth=20) == d and cfg.dominates(ci, i):
+        for ci, cid_, cset_, ctgt in check_calls(f):
+            if ci != i:
+                if describe(f, cid_, depth=20) == d and cfg.dominates(ci, i):
                     used = ctgt is not None and f["bbs"][ctgt]["t"][0] == "call" and callee_matches(f["bbs"][ctgt]["t"][1], r"Try(<[^>]*>)?>?::branch$")
                     if used:
                         cls = "CHECKED"
@@ -153,7 +201,7 @@ def run(F, rep, tier, allfacts):
                                     cls = "CURRENT(captured)"
             elif re.search(r"inputs\(", d) and n.endswith("::run"):
                 cls = "INPUT"
-            elif n.endswith("::deploy_inner") and re.search(r"^var:id$|Contract::id|contract_id", d):
+            elif n.endswith("::deploy_inner") and re.search(r"^var:\w+$|Contract::id|contract_id", d):
                 cls = "CREATED"
         k0 = "%s:%s" % (short(n), what)
         ordinals[k0] = ordinals.get(k0, -1) + 1
@@ -194,9 +242,14 @@ def run(F, rep, tier, allfacts):
     rep.check(okv, "TAB-verifier", "Normal:Ok<=>input_contracts.contains(id)", "%s:%s" % (vf["file"], vf["line"]),
               "Normal::check_contract_in_inputs must return Ok exactly when input_contracts.contains(contract_id)")
     nsites = 0
-    for n, i, c, args, line in cg.callers_of(CHECK):
-        f = cg.fns[n]
-        d = describe(f, args[2], depth=12)
+    sites_ = []
+    for n, f in cg.fns.items():
+        if not n.startswith("fuel_vm::") or n in wrappers or SKIP_FN.search(n):
+            continue
+        for ci, cid_, cset_, ctgt in check_calls(f):
+            sites_.append((n, f, cset_, f["bbs"][ci]["t"][5]))
+    for n, f, cset_, line in sites_:
+        d = describe(f, cset_, depth=12)
         nsites += 1
         rep.check(d in ("arg:self.input_contracts",) or d.endswith(".input_contracts"), "TAB-verifier", "site-passes-input_contracts:" + short(n),
                   "%s:%s" % (f["file"], line), "check_contract_in_inputs must be given the interpreter's input_contracts set; found %s" % d)
@@ -249,12 +302,7 @@ def run(F, rep, tier, allfacts):
                 continue
             if "<Type>" in tr and "StorageInspect" not in tr and "StorageMutate" not in tr:
                 continue
-            cfg = CFG(f)
-            oks = ok_sites(f, cfg)
-            # allowed: no ok sites at all, or ok sites only `_0 = Err`-like moves (unknown). Require an Err aggregate on all paths.
-            errb = agg_blocks(f, r"result::Result$", "Err")
-            okb = agg_blocks(f, r"result::Result$", "Ok")
-            fails = bool(errb) and not okb and cfg.must_pass(errb)
+            fails = always_fails(F, dp, 2)
             # generic get/contains_key for all tables delegate: accept only pure-error bodies
             npred += 1
             rep.check(fails, "PRED-storage", "PredicateStorage:%s::%s" % (tr.rsplit("::", 1)[-1], name), "%s:%s" % (f["file"], f["line"]),
